@@ -1,6 +1,321 @@
-//! Free-running engine (for Miri): placeholder, implemented below in a later step.
-use std::collections::HashMap;
+//! Second engine (thorough tier): the same workload FREE-RUNNING — no baton —
+//! meant to be executed under Miri, whose scheduler (seeded by `-Zmiri-seed`,
+//! pre-empting at random basic-block boundaries with
+//! `-Zmiri-preemption-rate`) then decides every interleaving at instruction
+//! granularity, inside the real std TLS machinery.  One Miri seed is one
+//! exactly repeatable execution.  Miri also reports data races and other UB.
+//!
+//! Threads do not communicate, so each thread's expected outcomes are its own
+//! sequential history: L1 inline (`default()` = own last set, HalfEven if
+//! none), L3 against references computed sequentially, by the same real
+//! code, on a fresh thread BEFORE the concurrent phase starts.
+//!
+//! The program also runs natively (truly parallel); that is used only as a
+//! smoke test of the engine itself, never as evidence.
 
-pub fn cmd_free(_kv: &HashMap<String, String>, _flags: &[String]) -> Result<i32, String> {
-    Err("free-running engine not built yet".into())
+use std::cell::RefCell;
+use std::collections::HashMap;
+use std::panic::{catch_unwind, AssertUnwindSafe};
+use std::sync::{Arc, Mutex};
+
+use fpdec::RoundingMode;
+
+use crate::gen::{gen_op, Cfg, Class, N_KINDS};
+use crate::ops::{
+    exec_plain, mode_index, Op, Outcome, HALF_EVEN, MODES, MODE_NAMES,
+};
+use crate::prng::{run_seed, Rng};
+
+#[derive(Clone, Debug)]
+enum FStep {
+    Set(u8),
+    Read,
+    Op(Op, Outcome),
+    /// spawn the logical thread with this index in `lists`
+    Spawn(usize),
+    /// join a previously spawned child (index in `lists`)
+    Join(usize),
+    /// panic out of the thread function (thread crash)
+    Die,
+}
+
+struct FThread {
+    steps: Vec<FStep>,
+    probe: bool,
+}
+
+type Errors = Arc<Mutex<Vec<String>>>;
+
+struct FreeProbe {
+    armed: Option<(usize, u8, Errors)>,
+}
+
+impl Drop for FreeProbe {
+    fn drop(&mut self) {
+        if let Some((id, expect, errs)) = self.armed.take() {
+            let r = catch_unwind(|| mode_index(RoundingMode::default()));
+            match r {
+                Ok(m) if m == expect => {}
+                Ok(m) => errs.lock().unwrap().push(format!(
+                    "L1:dtor-read F{}: default() in TLS destructor = {} expected {}",
+                    id, MODE_NAMES[m as usize], MODE_NAMES[expect as usize]
+                )),
+                Err(_) => errs.lock().unwrap().push(format!(
+                    "teardown:panic F{}: default() panicked in TLS destructor",
+                    id
+                )),
+            }
+        }
+    }
+}
+
+thread_local! {
+    static FPROBE: RefCell<FreeProbe> = RefCell::new(FreeProbe { armed: None });
+}
+
+struct DieMarker;
+
+fn run_thread(id: usize, lists: Arc<Vec<FThread>>, errs: Errors) {
+    let me = &lists[id];
+    let mut model = HALF_EVEN;
+    let mut handles: HashMap<usize, (std::thread::JoinHandle<()>, bool)> =
+        HashMap::new();
+    if me.probe {
+        // installed before the library's TLS is first touched
+        let e2 = errs.clone();
+        FPROBE.with(|p| p.borrow_mut().armed = Some((id, HALF_EVEN, e2)));
+    }
+    for (i, st) in me.steps.iter().enumerate() {
+        match st {
+            FStep::Set(m) => {
+                RoundingMode::set_default(MODES[*m as usize]);
+                model = *m;
+                if me.probe {
+                    FPROBE.with(|p| {
+                        if let Some(a) = p.borrow_mut().armed.as_mut() {
+                            a.1 = *m;
+                        }
+                    });
+                }
+            }
+            FStep::Read => {
+                let got = mode_index(RoundingMode::default());
+                if got != model {
+                    errs.lock().unwrap().push(format!(
+                        "L1:read F{} step {}: default() = {} but own last set is {}",
+                        id, i, MODE_NAMES[got as usize], MODE_NAMES[model as usize]
+                    ));
+                }
+            }
+            FStep::Op(op, expect) => {
+                let got = exec_plain(op);
+                if got != *expect {
+                    errs.lock().unwrap().push(format!(
+                        "L3:{} F{} step {}: {} under own mode {} gave {} but in isolation gives {}",
+                        op.kind_name(), id, i, op.to_text(), MODE_NAMES[model as usize],
+                        got.show(), expect.show()
+                    ));
+                }
+            }
+            FStep::Spawn(c) => {
+                let (l2, e2, c2) = (lists.clone(), errs.clone(), *c);
+                let dies = lists[*c].steps.iter().any(|s| matches!(s, FStep::Die));
+                let h = std::thread::spawn(move || run_thread(c2, l2, e2));
+                handles.insert(*c, (h, dies));
+            }
+            FStep::Join(c) => {
+                if let Some((h, dies)) = handles.remove(c) {
+                    let r = h.join();
+                    if r.is_err() != dies {
+                        errs.lock().unwrap().push(format!(
+                            "harness F{}: join of F{} = {:?}-ish, expected dies={}",
+                            id, c, r.is_err(), dies
+                        ));
+                    }
+                }
+            }
+            FStep::Die => {
+                for (_, (h, _)) in handles.drain() {
+                    let _ = h.join();
+                }
+                std::panic::panic_any(DieMarker);
+            }
+        }
+    }
+    for (_, (h, _)) in handles.drain() {
+        let _ = h.join();
+    }
+}
+
+fn free_cfg() -> Cfg {
+    Cfg {
+        max_threads: 4,
+        n_steps: 0,
+        w: [0; 7],
+        kinds: [true; N_KINDS],
+        class_w: [1, 0, 0, 0],
+        f_panic: false,
+        f_die: false,
+        f_exit: false,
+        f_preempt: false,
+        f_sink_err: false,
+        f_dtor: false,
+        personality: 0,
+        spawn_shape: 0,
+        builder_pct: 0,
+        ref_per_event: false,
+        distinct_mode_pct: 100,
+        pct_depth: 1,
+    }
+}
+
+/// Build the per-thread lists for plan `plan_ix` (0..): shapes cycle through
+/// flat / chain / respawn; panics, sink errors and a crashing thread from
+/// plan 2 on.
+fn build(seed: u64, plan_ix: u64, steps_per_thread: usize) -> Vec<FThread> {
+    let mut rng = Rng::from_seed(run_seed(seed, 0xF4EE_0000 + plan_ix));
+    let cfg = free_cfg();
+    let shape = plan_ix % 3;
+    let rough = plan_ix >= 2;
+    // cheap, mode-sensitive kinds (Miri is ~10^4 x slower than native)
+    let kinds: [usize; 8] = [0, 2, 4, 10, 11, 12, 15, 19];
+    let n = 3usize;
+    let mut lists: Vec<FThread> = Vec::new();
+    let mut used = [false; 8];
+    used[HALF_EVEN as usize] = true;
+    for t in 0..n {
+        let mut steps: Vec<FStep> = Vec::new();
+        // every thread but the last-created sets a mode unlike anybody else's
+        // early, so that children are spawned from non-default parents
+        let mut pick_mode = |rng: &mut Rng| {
+            let free: Vec<u8> = (0..8u8).filter(|m| !used[*m as usize]).collect();
+            let m = if free.is_empty() { rng.below(8) as u8 } else { *rng.pick(&free) };
+            used[m as usize] = true;
+            m
+        };
+        if t == 0 || rng.pct(60) {
+            steps.push(FStep::Read); // fresh thread: HalfEven
+            let kind = *rng.pick(&kinds);
+            steps.push(FStep::Op(gen_op(&mut rng, &cfg, kind, Class::Witness), Outcome::Unit));
+            steps.push(FStep::Set(pick_mode(&mut rng)));
+        }
+        for _ in 0..steps_per_thread {
+            match rng.below(10) {
+                0 => steps.push(FStep::Set(pick_mode(&mut rng))),
+                1 | 2 => steps.push(FStep::Read),
+                _ => {
+                    let kind = *rng.pick(&kinds);
+                    let class = if rough && rng.pct(15) { Class::Panicking } else { Class::Witness };
+                    let mut op = gen_op(&mut rng, &cfg, kind, class);
+                    if let Op::Fmt { err_at, .. } = &mut op {
+                        if rough && rng.pct(30) {
+                            *err_at = rng.range(1, 3) as u16;
+                        }
+                    }
+                    steps.push(FStep::Op(op, Outcome::Unit));
+                }
+            }
+        }
+        steps.push(FStep::Read);
+        lists.push(FThread { steps, probe: rough && rng.pct(60) });
+    }
+    // wiring
+    match shape {
+        0 => {
+            // flat: root spawns both children after its first set
+            let at = lists[0].steps.iter().position(|s| matches!(s, FStep::Set(_))).map_or(0, |p| p + 1);
+            lists[0].steps.insert(at, FStep::Spawn(1));
+            lists[0].steps.insert(at + 1, FStep::Spawn(2));
+        }
+        1 => {
+            // chain: root -> 1 -> 2
+            let at = lists[0].steps.iter().position(|s| matches!(s, FStep::Set(_))).map_or(0, |p| p + 1);
+            lists[0].steps.insert(at, FStep::Spawn(1));
+            let at1 = lists[1].steps.iter().position(|s| matches!(s, FStep::Set(_))).map_or(0, |p| p + 1);
+            lists[1].steps.insert(at1, FStep::Spawn(2));
+        }
+        _ => {
+            // respawn: root spawns 1, joins it (thread gone, TLS slot free), spawns 2
+            let at = lists[0].steps.iter().position(|s| matches!(s, FStep::Set(_))).map_or(0, |p| p + 1);
+            lists[0].steps.insert(at, FStep::Spawn(1));
+            let mid = (lists[0].steps.len() + at) / 2;
+            lists[0].steps.insert(mid, FStep::Join(1));
+            lists[0].steps.insert(mid + 1, FStep::Spawn(2));
+            if rough {
+                lists[1].steps.push(FStep::Die);
+            }
+        }
+    }
+    lists
+}
+
+/// Fill in the expected outcome of every op: sequentially, on this (fresh)
+/// thread, with the thread's model mode set explicitly.
+fn fill_expectations(lists: &mut [FThread]) {
+    for l in lists.iter_mut() {
+        let mut model = HALF_EVEN;
+        for st in l.steps.iter_mut() {
+            match st {
+                FStep::Set(m) => model = *m,
+                FStep::Op(op, expect) => {
+                    RoundingMode::set_default(MODES[model as usize]);
+                    *expect = exec_plain(op);
+                }
+                _ => {}
+            }
+        }
+    }
+}
+
+pub fn cmd_free(kv: &HashMap<String, String>, flags: &[String]) -> Result<i32, String> {
+    let num = |k: &str, d: u64| -> Result<u64, String> {
+        match kv.get(k) {
+            None => Ok(d),
+            Some(v) => v.parse::<u64>().map_err(|e| format!("{}: {}", k, e)),
+        }
+    };
+    let seed = num("--seed", 1)?;
+    let plan_ix = num("--plan", 0)?;
+    let steps = num("--steps", 4)? as usize;
+    let verbose = flags.iter().any(|f| f == "--verbose");
+    // silent hook for the expected panics of the real code
+    std::panic::set_hook(Box::new(|_| {}));
+    let lists = build(seed, plan_ix, steps);
+    let lists = std::thread::spawn(move || {
+        let mut l = lists;
+        fill_expectations(&mut l);
+        l
+    })
+    .join()
+    .map_err(|_| "reference thread died")?;
+    if verbose {
+        for (i, l) in lists.iter().enumerate() {
+            println!("F{} probe={}", i, l.probe);
+            for s in &l.steps {
+                println!("   {:?}", s);
+            }
+        }
+    }
+    let n_ops: usize = lists
+        .iter()
+        .map(|l| l.steps.iter().filter(|s| matches!(s, FStep::Op(..))).count())
+        .sum();
+    let lists = Arc::new(lists);
+    let errs: Errors = Arc::new(Mutex::new(Vec::new()));
+    let (l2, e2) = (lists.clone(), errs.clone());
+    let root_dies = lists[0].steps.iter().any(|s| matches!(s, FStep::Die));
+    let r = std::thread::spawn(move || run_thread(0, l2, e2)).join();
+    if r.is_err() != root_dies {
+        return Err("free: root thread ended unexpectedly".into());
+    }
+    let errs = errs.lock().unwrap();
+    if errs.is_empty() {
+        println!("FREE-OK seed={} plan={} threads={} ops={}", seed, plan_ix, lists.len(), n_ops);
+        Ok(0)
+    } else {
+        for e in errs.iter() {
+            println!("VIOLATION-FREE {}", e);
+        }
+        Ok(1)
+    }
 }
